@@ -31,8 +31,8 @@ package rwc
 //@   noframe
 //@   nosweep nil-deref
 // a length prefix is refused only when it is 0 or above the limit
-//@   assert at call errors.New: pktLen == 0
-//@   assert at call Errorf: pktLen > p.maxPacketSize
+//@   assert at call? errors.New: pktLen == 0
+//@   assert at call? Errorf: pktLen > p.maxPacketSize
 //@   assert at call ReadFull: true
 //@   assert at send: 1 <= len(sent) && len(sent) <= p.maxPacketSize && len(sent) == le32(rdstr(p.rwc, atcall(ReadFull, rdpos[arg0]), atcall(ReadFull, rdpos[arg0]) + 4))
 //@   assert at send: content(sent) == rdstr(p.rwc, atcall(ReadFull, rdpos[arg0]) + 4, atcall(ReadFull, rdpos[arg0]) + 4 + len(sent))
